@@ -63,6 +63,8 @@ HOLD = [hold(ks) for ks in [[]] + [[a] for a in LEAVES] + [[a, b] for a in CORE 
         + [[leaf("U"), leaf("A")], [leaf("A"), leaf("U")], [leaf("Z"), leaf("Z")], [leaf("Z"), leaf("B")]]]
 GRP = [{"kind": "grp", "d": "G", "kids": [a, b], "bad": False} for a in LEAVES for b in [leaf("B"), leaf("A2"), hold([leaf("A2")])]]
 # values whose write() raises part-way through packing (own text value with a lone surrogate)
+BADLEAVES_JSON = [leaf("A2", True)]
+FAIL_JSON = BADLEAVES_JSON + [hold([x]) for x in BADLEAVES_JSON] + [hold([a, x]) for a in CORE for x in BADLEAVES_JSON] + [hold([x, a]) for a in CORE for x in BADLEAVES_JSON]
 FAIL = BADLEAVES + [hold([x]) for x in BADLEAVES] + [hold([a, x]) for a in CORE for x in BADLEAVES] + [hold([x, a]) for a in CORE for x in BADLEAVES]
 
 
@@ -98,7 +100,7 @@ def build(DESC, v, n=[0]):
     if d == "Z":
         return DESC[d]()
     if d == "A2":
-        return DESC[d](3)
+        return DESC[d](10**5000 if v.get("bad") else 3)   # json.dumps cannot turn an integer of 5000 digits into text
     return DESC[d](val)
 
 
@@ -276,6 +278,10 @@ class JsonPath(PathBased):
         self.w.flush()
         return frames_json(self._new().decode(), v)
 
+    def after_failure(self, v):
+        self.w.flush()
+        return frames_json(self._new().decode(), v)
+
 
 def run_history(kind, hist, DESC, tmp):
     """hist: list of (writer id, value).  -> trace (list of events)"""
@@ -321,6 +327,8 @@ def gen_histories(ctx, recs, tier, exhaustive_len, n_random, rand_len, fail=()):
         for v in CORE:
             for v2 in CORE:
                 out.append([("w1", v), ("w1", f), ("w1", v2)])
+                if len(fail) < 12:
+                    out.append([("w1", f), ("w1", v), ("w1", v2)])
     recs = list(recs) + list(fail)
     for n in range(1, exhaustive_len + 1):
         if n == 1:
@@ -420,11 +428,11 @@ def run(tier):
     plans = [
         (LowLevel, allv, 2 if not thorough else 2, 1500 if not thorough else 12000, (4, 12) if not thorough else (8, 30), FAIL),
         (PathBased, allv, 1, 600 if not thorough else 6000, (3, 10) if not thorough else (8, 24), FAIL),
-        (JsonPath, plain, 1, 600 if not thorough else 6000, (3, 10) if not thorough else (8, 24), ()),
+        (JsonPath, plain, 1, 600 if not thorough else 6000, (3, 10) if not thorough else (8, 24), FAIL_JSON),
     ]
     if thorough:
         plans[1] = (PathBased, allv, 2, 6000, (8, 24), FAIL)
-        plans[2] = (JsonPath, plain, 2, 6000, (8, 24), ())
+        plans[2] = (JsonPath, plain, 2, 6000, (8, 24), FAIL_JSON)
     for kind, recs, exl, nrand, rl, fail in plans:
         hists = gen_histories(ctx, recs, tier, exl, nrand, rl, fail if kind is not PathBased or thorough else fail[:9])
         # chunk so that one TLC invocation parses <= ~20 MB of JSON
